@@ -55,6 +55,7 @@ int main(int argc, char **argv) {
                                     return 97; }
     if (fscanf(f, "%d %d %ld", &rc, &sig, &el) != 3) return 98;
     fgetc(f);
+    setvbuf(stderr, NULL, _IOFBF, 1 << 16);
     while (el-- > 0 && (c = fgetc(f)) != EOF) fputc(c, stderr);
     while ((c = fgetc(f)) != EOF) fputc(c, stdout);
     fflush(stdout); fflush(stderr);
@@ -170,9 +171,12 @@ def _setup(ctx):
     exe = os.path.join(ctx.tmp, 'c35_stub')
     with open(src, 'w') as f:
         f.write(STUB_C)
-    r = subprocess.run(['gcc', '-O1', '-o', exe, src], stdout=subprocess.PIPE,
-                       stderr=subprocess.STDOUT, timeout=120)
-    if r.returncode != 0:
+    for static in (['-static'], []):         # static: process start is the cost of this check
+        r = subprocess.run(['gcc', '-O1'] + static + ['-o', exe, src], stdout=subprocess.PIPE,
+                           stderr=subprocess.STDOUT, timeout=120)
+        if r.returncode == 0:
+            break
+    else:
         raise core.Inconclusive('cannot build the pkg-config stub: ' + r.stdout.decode()[-500:])
     return {'stub': exe}
 
@@ -183,8 +187,8 @@ def replay_setup(ctx, case):
 
 def generate(ctx):
     rng = ctx.rng('gen')
-    nspec, nmerge, per = ctx.scale(4000, 40000), ctx.scale(6000, 100000), 50
-    specs = [gen_spec(rng, big=(i % 400 == 7)) for i in range(nspec)]
+    nspec, nmerge, per = ctx.scale(600, 10000), ctx.scale(20000, 200000), 15
+    specs = [gen_spec(rng, big=(i % 300 == 7)) for i in range(nspec)]
     cases = [{'kind': 'pkg', 'specs': specs[i:i + per]} for i in range(0, nspec, per)]
     seeds = [rng.getrandbits(48) for _ in range(nmerge)]
     cases += [{'kind': 'merge', 'seeds': seeds[i:i + 1000]} for i in range(0, nmerge, 1000)]
